@@ -362,6 +362,7 @@ def run(rep):
     tiff_tiles(rep)
     lib_dimensions(rep)
     lib_wire_pixels(rep)
+    lib_sample_values(rep)
     lib_row_order(rep)
 
 
@@ -1242,3 +1243,44 @@ def lib_row_order(rep):
         else:
             rep.ok("W8-lib-row-order", key, "view row y -> codec row y, y = 0..H-1")
     rep.floor("obligations:W8", 3)
+
+
+
+def lib_sample_values(rep):
+    """W9: what a library-backed writer hands to the codec are the samples of the view"""
+    rep.rule("W9 png/jpeg/tiff writers: the rows handed to the codec are read from the user's view itself: no value-changing view adaptor (premultiply_view, "
+             "color_converted_view with a real conversion, ...) stands between the view and the codec unless the reader applies the inverse; a premultiplied alpha cannot be undone "
+             "(alpha 0 loses the colour), so write_view followed by read_image does not return the view")
+    wd = C.workdir("C12wire")
+    d = C.astdump(os.path.join(C.DRIVERS, "c12_lib.cpp"), os.path.join(wd, "lib.json"), ['^boost::gil::writer::', '^boost::gil::reader::'], defs=C.IO_DEFS)
+    if d.get("errors"):
+        raise C.AnalysisBroken("drivers/c12_lib.cpp has compile errors")
+    ADAPT = ("premultiply_view", "unpremultiply_view")
+    seen = {}
+    inverse = set()
+    nwr = 0
+    for f in d["functions"]:
+        fmt = fmt_of(f)
+        if fmt not in ("png", "jpeg", "tiff") or f.get("body") is None:
+            continue
+        side = "writer" if "::writer::" in "::" + f["name"] else "reader"
+        nwr += side == "writer"
+        for c, _ in R.calls_in(f["body"], lambda n: n.split("::")[-1] in ADAPT or "unpremultipl" in n):
+            nm = c["callee"]["name"].split("::")[-1]
+            if side == "reader":
+                inverse.add(fmt)
+            elif nm == "premultiply_view":
+                seen.setdefault("W9:%s:writer::%s:premultiply_view" % (fmt, f["name"].split("::")[-1]), "%s:%s" % (rel_path(f), c.get("line")))
+    rep.analysed["library-backed writer members"] = nwr
+    rep.count("obligations:W9")
+    if nwr < 10:
+        rep.fail_analysis("W9: only %d writer members instantiated" % nwr)
+    elif not seen:
+        rep.ok("W9-lib-sample-values", "W9: %d writer members, rows come from the view unchanged" % nwr, nwr)
+    for key, where in sorted(seen.items()):
+        rep.count("obligations:W9")
+        fmt = key.split(":")[1]
+        if fmt in inverse:
+            rep.ok("W9-lib-sample-values", key, "the reader un-premultiplies")
+        else:
+            rep.violation("W9-lib-sample-values", key, where, {"problem": "the colour channels are multiplied by alpha before they are written and no reader divides again: rgba8 (200,100,50,128) reads back (100,50,25,128)"})
